@@ -16,9 +16,9 @@ import (
 
 type tok struct {
 	kind  string
-	depth int // loop nesting depth at which the primitive executes
-	flag *Term // for kind "flag": the flag argument / result
-	call *ssa.Call
+	depth int   // loop nesting depth at which the primitive executes
+	flag  *Term // for kind "flag": the flag argument / result
+	call  *ssa.Call
 }
 
 func tokString(ts []tok) string {
